@@ -31,6 +31,8 @@ LEVEL_TEXT = ('Bounded-exhaustive over the joint bit/reference budget of header,
               'the library parser; all alternative valid placements are fed to the parser.')
 LEVEL_NOTE = 'trusted: mc/ref/tlb.py on the bundled block.tlb (decodes the whole main-net block), mc/ref/bits.py, mc/ref/hashmap.py; the reference message encoder is validated against the schema decoder on every case'
 TECHNIQUE = 'small-scope exhaustive enumeration of message shapes around all placement thresholds against a schema-driven reference decoder and encoder'
+RULE += " Edit histories (explorer S): one message with state-init and currency collection, event alphabet of 37 events (serialise message / init / value, parse; set each init field to each alternative; edit the TickTock in place; grams; put/delete/replace extra currencies in place; header fields; destination; anycast; body; attach/detach init), every history of <= 3 (thorough 4) events ending in an observer, replayed on fresh objects: every serialisation must be the block.tlb encoding of the objects' CURRENT fields."
+LEVEL_TEXT += ' Plus an explicit-state search over edit/serialise histories of the mutable value objects.'
 ASSUMPTIONS = ['a message whose header alone exceeds a cell (two 30-bit anycast addresses plus maximal amounts) is not a message and is outside the family',
                'int_msg_info src/dest are MsgAddressInt (addr_std); external addresses only where the schema allows MsgAddressExt']
 NOT_ASSERTED = ['which valid placement the serialiser chooses (any encoding that decodes to the same message under the schema is accepted)', 'addr_var addresses (refused by the library by design)']
